@@ -103,22 +103,8 @@ Proof.
 Qed.
 
 (* ================= C10 ================= *)
-(* representable, written from the symbology: the level exists, the content is in
-   the alphabet of the mode and some version up to 40 has room for it *)
-Definition mode_representable (m : smode) (l : qlevel) (content : list Z) : bool :=
-  in_mode_alphabet m content && spec_fits_some m l (zlength content).
-
-Definition qr_representable (content : list Z) (level mode : Z) : bool :=
-  match level_of_Z level with
-  | None => false
-  | Some l =>
-    if mode =? qr_enc_numeric then mode_representable SNumeric l content
-    else if mode =? qr_enc_alphanumeric then mode_representable SAlnum l content
-    else if mode =? qr_enc_unicode then mode_representable SByte l content
-    else mode_representable SNumeric l content || mode_representable SAlnum l content
-         || mode_representable SByte l content
-  end.
-
+(* qr_representable (spec/QRSpec.v): the level exists, the content is in the alphabet of
+   the mode and some version up to 40 has room for it *)
 Lemma existsb_find {A} (P : A -> bool) (l : list A) :
   existsb P l = match find P l with Some _ => true | None => false end.
 Proof. induction l as [|x l IH]; [reflexivity|]. cbn. destruct (P x); [reflexivity|exact IH]. Qed.
@@ -244,12 +230,12 @@ Qed.
 
 (* sanity: the capacity limits of version 40-L *)
 Example qr_c10_capacity_examples :
-  mode_representable SNumeric LvL (repeat 48 7089) = true
-  /\ mode_representable SNumeric LvL (repeat 48 7090) = false
-  /\ mode_representable SAlnum LvL (repeat 65 4296) = true
-  /\ mode_representable SAlnum LvL (repeat 65 4297) = false
-  /\ mode_representable SByte LvL (repeat 200 2953) = true
-  /\ mode_representable SByte LvL (repeat 200 2954) = false.
+  mode_representable SNumeric LvL (repeat 48 (Z.to_nat 7089)) = true
+  /\ mode_representable SNumeric LvL (repeat 48 (Z.to_nat 7090)) = false
+  /\ mode_representable SAlnum LvL (repeat 65 (Z.to_nat 4296)) = true
+  /\ mode_representable SAlnum LvL (repeat 65 (Z.to_nat 4297)) = false
+  /\ mode_representable SByte LvL (repeat 200 (Z.to_nat 2953)) = true
+  /\ mode_representable SByte LvL (repeat 200 (Z.to_nat 2954)) = false.
 Proof. vm_compute. repeat split; reflexivity. Qed.
 
 (* ================= C11 ================= *)
@@ -283,3 +269,141 @@ Proof.
     destruct Hrow as (y & <- & _). unfold zlength. rewrite map_length, zseq_length. lia.
   - intros C scheme. unfold qr_encode_with_color. rewrite H. reflexivity.
 Qed.
+
+(* ================= C12 ================= *)
+Theorem qr_c12 content level mode mask bc :
+  is_bytes content -> valid_encoding mode -> 0 <= mask < 8 ->
+  qr_encode content level mode mask = Ok bc ->
+  exists r l,
+    qr_read_rows (bc_rows bc) = Some r /\ level_of_Z level = Some l
+    /\ rd_level r = l
+    /\ Forall (fun b => zlength (snd b) = table_at ecc_per_block l (rd_version r)) (rd_blocks r)
+    /\ zlength (rd_blocks r) = table_at num_blocks l (rd_version r)
+    /\ forallb (block_ok (table_at ecc_per_block l (rd_version r))) (rd_blocks r) = true.
+Proof.
+  intros Hb Hm Hk H.
+  destruct (qr_encode_read_modulo_rs rs_holds content level mode mask bc Hb Hm Hk H)
+    as (vi & l & data & bits & r & _ & Hin & Hl & _ & _ & _ & _ & _ & _ & BF & Hread & Hr & _).
+  exists r, l. destruct Hr as (H1 & H2 & H3 & H4 & _).
+  split; [exact Hread|]. split; [exact Hl|]. split; [exact H2|].
+  rewrite H1, H4. destruct BF as [_ _ Bsyn _ Becc Bcnt].
+  split; [exact Becc|]. split; [|exact Bsyn].
+  rewrite Bcnt. unfold spec_blocks. cbn [bl_n1 bl_n2]. lia.
+Qed.
+
+(* ================= C13 ================= *)
+Lemma fits_some_mono m1 m2 l n :
+  (forall v, spec_fits m1 l n v = true -> spec_fits m2 l n v = true) ->
+  spec_fits_some m1 l n = true -> spec_fits_some m2 l n = true.
+Proof.
+  intros H. unfold spec_fits_some. intros E. apply existsb_exists in E. destruct E as (v & Hv & Hf).
+  apply existsb_exists. exists v. split; [exact Hv|apply H; exact Hf].
+Qed.
+
+(* Auto ends up with the densest mode whose alphabet contains the content *)
+Lemma auto_densest content level bits vi :
+  encode_auto content level = Ok (bits, vi) ->
+  encoder_of (smode_of_encoding qr_enc_auto content) content level = Ok (bits, vi).
+Proof.
+  intros H. unfold smode_of_encoding.
+  cbn [Z.eqb Pos.eqb qr_enc_auto qr_enc_numeric qr_enc_alphanumeric qr_enc_unicode].
+  pose proof (encoder_representable SNumeric content level) as Hn.
+  pose proof (encoder_representable SAlnum content level) as Ha.
+  pose proof (encoder_representable SByte content level) as Hb.
+  cbn [encoder_of] in Hn, Ha, Hb. unfold encode_auto in H.
+  pose proof (zlength_nonneg content) as Hlen.
+  destruct (level_of_Z level) as [l|]; [|rewrite Hn, Ha, Hb in H; discriminate].
+  unfold mode_representable in Hn, Ha, Hb. rewrite <- !alphabet_ok_iso in Hn, Ha, Hb.
+  assert (Man : spec_fits_some SAlnum l (zlength content) = true -> spec_fits_some SNumeric l (zlength content) = true).
+  { apply fits_some_mono. intros v. apply spec_fits_alnum_numeric. exact Hlen. }
+  assert (Mba : spec_fits_some SByte l (zlength content) = true -> spec_fits_some SAlnum l (zlength content) = true).
+  { apply fits_some_mono. intros v. apply spec_fits_byte_alnum. exact Hlen. }
+  destruct (alphabet_ok SNumeric content) eqn:An; cbn [andb] in Hn.
+  - (* all digits *)
+    destruct (spec_fits_some SNumeric l (zlength content)) eqn:Fn.
+    + destruct Hn as (b1 & v1 & E1). rewrite E1 in H. cbn [encoder_of]. congruence.
+    + exfalso. rewrite Hn in H.
+      destruct (alphabet_ok SAlnum content && spec_fits_some SAlnum l (zlength content)) eqn:Ra.
+      * apply andb_true_iff in Ra. destruct Ra as [_ Ra]. apply Man in Ra. congruence.
+      * rewrite Ha in H. cbn [alphabet_ok andb] in Hb.
+        destruct (spec_fits_some SByte l (zlength content)) eqn:Fb.
+        -- pose proof (Mba eq_refl) as Fa2. apply Man in Fa2. congruence.
+        -- rewrite Hb in H. discriminate.
+  - rewrite Hn in H.
+    destruct (alphabet_ok SAlnum content) eqn:Aa; cbn [andb] in Ha.
+    + destruct (spec_fits_some SAlnum l (zlength content)) eqn:Fa.
+      * destruct Ha as (b2 & v2 & E2). rewrite E2 in H. cbn [encoder_of]. congruence.
+      * exfalso. rewrite Ha in H. cbn [alphabet_ok andb] in Hb.
+        destruct (spec_fits_some SByte l (zlength content)) eqn:Fb.
+        -- pose proof (Mba eq_refl) as Fa2. congruence.
+        -- rewrite Hb in H. discriminate.
+    + rewrite Ha in H. cbn [encoder_of].
+      destruct (encode_unicode content level) as [r| | |]; try discriminate. congruence.
+Qed.
+
+Lemma encode_bits_mode content level mode bits vi : valid_encoding mode ->
+  encode_bits content level mode = Ok (bits, vi) ->
+  encoder_of (smode_of_encoding mode content) content level = Ok (bits, vi).
+Proof.
+  intros Hm H. destruct Hm as [->|[->|[->| ->]]].
+  - apply auto_densest. exact H.
+  - exact H.
+  - exact H.
+  - exact H.
+Qed.
+
+Lemma smode_of_encoding_spec mode content : valid_encoding mode ->
+  smode_of_encoding mode content = spec_mode_used mode content.
+Proof.
+  intros Hm. unfold smode_of_encoding, spec_mode_used. rewrite <- !alphabet_ok_iso.
+  destruct Hm as [->|[->|[->| ->]]]; reflexivity.
+Qed.
+
+(* the version is the smallest whose capacity at the level holds the content in the
+   mode used; for Auto the mode used is the densest one that can express the content *)
+Theorem qr_c13 content level mode mask bc :
+  is_bytes content -> valid_encoding mode -> 0 <= mask < 8 ->
+  qr_encode content level mode mask = Ok bc ->
+  exists l v,
+    level_of_Z level = Some l /\ bc_width bc = spec_size v /\ 1 <= v <= 40
+    /\ in_mode_alphabet (spec_mode_used mode content) content = true
+    /\ spec_min_version (spec_mode_used mode content) l (zlength content) = Some v
+    /\ spec_fits (spec_mode_used mode content) l (zlength content) v = true
+    /\ forall v', 1 <= v' < v ->
+         spec_fits (spec_mode_used mode content) l (zlength content) v' = false.
+Proof.
+  intros Hb Hm Hk H.
+  destruct (qr_encode_read_modulo_rs rs_holds content level mode mask bc Hb Hm Hk H)
+    as (vi & l & data & bits & r & Ebits & Hin & Hl & _ & Hw & _).
+  pose proof (encode_bits_mode content level mode bits vi Hm Ebits) as Eenc.
+  rewrite (smode_of_encoding_spec mode content Hm) in Eenc.
+  set (sm := spec_mode_used mode content) in *.
+  destruct (encoder_ok_shape sm content level bits vi Eenc) as (Hfind & Halpha & _).
+  rewrite find_smallest_capacity, Hl in Hfind.
+  destruct (find (spec_fits sm l (zlength content)) all_versions) as [v|] eqn:Ef; [|discriminate].
+  inversion Hfind as [Hvi]. clear Hfind.
+  destruct (find_sseq_some _ _ _ _ Ef) as (Hv & Hfit & Hmin).
+  exists l, v. split; [exact Hl|]. split; [rewrite Hw, <- Hvi; reflexivity|].
+  split; [lia|]. split; [rewrite <- alphabet_ok_iso; exact Halpha|]. split; [exact Ef|].
+  split; [exact Hfit|]. intros v' Hv'. apply Hmin. lia.
+Qed.
+
+(* ================= non-vacuity ================= *)
+Example qr_example_hello :
+  match qr_encode [104; 101; 108; 108; 111] 1 0 3 with
+  | Ok bc => qr_decode_rows (bc_rows bc) = Some [104; 101; 108; 108; 111]
+             /\ qr_valid_rows (bc_rows bc) = true /\ bc_width bc = 21
+  | _ => False
+  end.
+Proof. vm_compute. repeat split; reflexivity. Qed.
+
+Example qr_example_versions :
+  forallb (fun p =>
+    match qr_encode (repeat 55 (Z.to_nat (fst p))) 0 1 (snd p) with
+    | Ok bc => match qr_decode_rows (bc_rows bc) with
+               | Some c => (zlength c =? fst p) && qr_valid_rows (bc_rows bc)
+               | None => false
+               end
+    | _ => false
+    end) [(41, 0); (42, 1); (300, 2); (1000, 5)] = true.
+Proof. vm_compute. reflexivity. Qed.
